@@ -5,6 +5,38 @@ ROOT = os.path.dirname(os.path.dirname(os.path.abspath(__file__)))
 
 # id -> (engine, level, technique, level text, level note, design ref)
 CHECKS = {
+ "C01": ("srvsim", "exploration",
+         "deterministic simulation: whole server stepped on one thread under a seeded scheduler; connection ledger oracle",
+         "Seeded search over interleavings of client connects, accept-loop iterations, worker polls, connection completions, pause/resume and stop on the real ServerBuilder/Server/Accept/ServerWorker code (1..3 workers, TCP+UDS listeners, limits 1..3); every accepted connection is tracked from accept to service call (right listener's service, exactly once, none lost while a worker lives, queued ones closed on shutdown). Sampling, not proof.",
+         "Trusts the stepping hooks (one real loop iteration per step), the harness services and kernel loopback ordering; OS threads are replaced by simulator tasks, so only the modelled send->inc window is explored below loop-iteration granularity.", "§4.4 C01"),
+ "C02": ("srvsim", "exploration",
+         "deterministic simulation: seeded schedules incl. worker progress inside the send->increment window; per-worker in-progress invariant",
+         "Invariant `dispatched - finished <= max_concurrent_connections` per worker checked after every simulator action and at every service call entry, over seeded schedules of the real server in which workers may run between the channel send and the counter increment; limits 1..4, 1..3 workers. Sampling, not proof.",
+         "Fault-free runs only (the property's own proviso). Same trusted base as C01.", "§4.4 C02"),
+ "C03": ("srvsim", "exploration",
+         "deterministic simulation: liveness judged at quiescent states of the stepped server (no enabled internal action)",
+         "At every quiescent state reached by seeded schedules (all wake-ups processed, no timer, not paused) no client may be waiting on a listener while a worker in the rotation has spare capacity; real epoll edge-triggering, waker queue and counters. No step or time bound enters the oracle. Sampling, not proof.",
+         "Same trusted base as C01; quiescence is defined by the simulator's enabled-action set.", "§4.4 C03"),
+ "C04": ("srvsim", "exploration",
+         "deterministic simulation: dispatch-history oracle over seeded schedules + model comparison of the availability bit set",
+         "Dispatch log of seeded fault-free schedules: every window of W consecutive dispatches made while the accept loop's own view had all W workers available goes to W distinct workers, and no dispatch targets a saturated worker; worker counts up to 512 in the thorough tier; the real availability bit set is additionally driven with seeded set/get histories over indices 0..512 against a boolean-array model. Sampling, not proof.",
+         "The rotation rule is judged against the accept loop's own availability view (reported by a hook at each accept_one iteration).", "§4.4 C04"),
+ "C05": ("srvsim", "fault_enumeration",
+         "deterministic simulation with fault injection: accept errors of each kind and pause/resume storms, inserted at every position of sampled histories",
+         "Injected accept errors (EMFILE, ENFILE, ENOBUFS, ENOMEM, ECONNABORTED, ECONNRESET, ECONNREFUSED) replacing real accepts, pause/resume command storms, virtual-clock advances, on TCP and Unix-domain listeners; random schedules plus fault-point sweeps (each fault kind at every position of sampled fault-free histories). Oracles: nothing accepted once a pause has taken effect, per-connection errors arm no back-off, and after faults stop every listener accepts a fresh client. Sampling of histories; enumeration of fault points within them.",
+         "Fault injection happens at the top of MioListener::accept (the pending connection stays queued in the kernel); the 500 ms back-off is only bounded from above.", "§4.4 C05"),
+ "C06": ("srvsim", "fault_enumeration",
+         "deterministic simulation: stop commands and real signals at every position of sampled histories under a virtual clock",
+         "stop(graceful/forced), repeated stops, dropped stop futures and real SIGTERM/SIGINT/SIGQUIT raised in-process, at random points and swept over every position of sampled histories with 0..3 connections in progress and completion before/at/after shutdown_timeout in virtual time. Oracles: graceful never completes while a worker is busy before the timeout; forced completes with zero clock advance; every stop future and the Server future resolve; nothing is dispatched afterwards.",
+         "A signal and a stop command are not mixed in one run (the multiplexer's poll order would decide which is effective). The blocking join of the accept thread is replaced by driving the stepped loop.", "§4.4 C06"),
+ "C07": ("srvsim", "exploration",
+         "deterministic simulation: scripted service readiness (Ok/Pending/Err) flipped by simulator actions; event-log oracle",
+         "Per-worker log of poll_ready results and call entries from scripted harness services under seeded schedules: each call is immediately preceded by one Ready(Ok) from every service of the worker; a failed readiness check re-creates exactly that service from its factory (factories needing 0..2 polls), failed instances are never reused, and every queued connection is served once readiness returns.",
+         "Readiness flips always wake the stored waker (a flip without a wake would be an illegal service).", "§4.4 C07"),
+ "C08": ("srvsim", "fault_enumeration",
+         "deterministic simulation with fault injection: worker death at every point of sampled histories, late teardown, replacement through the real WorkerFaulted path",
+         "Workers killed (future dropped, or panic inside a service call) at random points and swept over every position of sampled histories; their outstanding connections complete arbitrarily late (stale availability notifications); the replacement is started by the real ServerInner::handle_cmd. Oracles: the accept loop never panics or spins, no connection is dropped while a handle remains, a failed send removes the handle at once, every discovered fault is answered by a replacement with the same index that rejoins the rotation and serves, fresh clients are served at the end.",
+         "Worker death is modelled as the ServerWorker future being dropped (as when its thread unwinds); at most two kills per run.", "§4.4 C08"),
  "C16": ("chansim", "exploration",
          "deterministic simulation: seeded operation interleavings under a strict-wake executor vs FIFO reference model",
          "Seeded search over operation histories (send / Sink send / clone / drop / close / poll / sender-from-receiver / drop receiver) of the real local-channel, every operation compared with a FIFO queue model and every wake-up obligation checked against counting wakers; sampling (millions of short histories per run), not proof.",
@@ -15,6 +47,8 @@ CHECKS = {
          "Trusts the counter/slot model in the harness; single-threaded use only.", "§6.3"),
 }
 ENGINES = [
+ {"name": "srvsim", "path": "sim/srvsim", "serves_properties": ["C01", "C02", "C03", "C04", "C05", "C06", "C07", "C08"],
+  "kind_free_text": "whole actix-server (real builder, Server future, accept loop, workers, sockets, epoll) stepped on one thread under a seeded scheduler with a paused tokio clock"},
  {"name": "chansim", "path": "sim/pollsim/src/chansim.rs", "serves_properties": ["C16", "C17"],
   "kind_free_text": "strict-wake poll-level simulator for local-channel / Counter / LocalWaker"},
 ]
